@@ -74,11 +74,14 @@ CLAIMED = {
         technique="Lean 4 emit-totality theorem over a typing checker that is also run on every parser output + exhaustive typed-position table",
         design="7/C06"),
     "C07": dict(
-        text="Theorems (Props/C07.lean) about the scope part of the parser model: a registered definition is found and disturbs no other name; the context of a function body holds "
+        text="PLACEMENT (Props/C07Sem.lean, accepted_programs_are_placed): in every AST the parser model returns - all file systems, import graphs, token sequences - continue stands in a "
+             "loop body, return in a function body, function definitions only at the top level of a file under a non-empty name, break in a loop or a switch (the parser's rule); with "
+             "breaks_in_loops this is the strict placement the Batch emitter needs, and accepted_programs_translate_for_both_targets closes C06's target independence from the source text on. "
+             "Theorems (Props/C07.lean) about the scope part of the parser model: a registered definition is found and disturbs no other name; the context of a function body holds "
              "only globals; accepted parameter lists have distinct names; the scope-stack queries behind break/continue/return. Program verdicts: scope-skeleton oracle; placement "
              "rules are also checked on every parser output (MISPLACED tag).",
         note=TB + "block-local scoping is by the type of the model function (blocks return statements only); the Go clone() sites are covered by correspondence.",
-        technique="Lean 4 theorems on the parser model's context operations + scope-skeleton generator with known verdicts",
+        technique="Lean 4 placement theorem for the parser model (scope-stack invariant) and theorems on its context operations + scope-skeleton generator with known verdicts (main file and imported file)",
         design="7/C07"),
     "C08": dict(
         text="SEMANTIC SIDE (Props/C08Sem.lean, strings_are_opaque_in_the_script): in the fragment of the C02 theorem a literal may contain every ASCII character except $ and backquote; the script prints exactly the strings the source semantics computes, through assignment, concatenation, comparison, parameters, return values, slice elements, copy, subscripts and len. All special strings of the generator are also run through the Lean models next to /bin/bash in every run (evidence: semantic_models). Theorems (Props/C08.lean): for every literal without $ and backquote the text bash reads between the quotes the converter writes is the literal itself and the quote ends "
@@ -120,10 +123,12 @@ CLAIMED = {
         technique="Lean 4 theorems on the lexer model + relayout search from the model's lexeme trace",
         design="7/C12"),
     "C13": dict(
-        text="Theorems (Props/C13.lean): the lexer terminates on every input with tokens or an error, every iteration consumes input, the token list ends in EOF; every error "
+        text="PARSER (Props/C13Sem.lean, parser_never_panics): for all file systems, import graphs and token sequences the parser model ends in a program, an error or fuel exhaustion - never at "
+             "one of the places where parser.go would index out of range (argument lists of builtins after the arity check, the parameter of an argument, names[0], the value of a compound "
+             "assignment); proved with the typing theorem of C06Sem (the postcondition calculus carries 'no run panics'). Theorems (Props/C13.lean): the lexer terminates on every input with tokens or an error, every iteration consumes input, the token list ends in EOF; every error "
              "literal in the source is non-empty (regenerated). Parser/emitters: crash/hang oracle with recover and watchdog over token edits, typed near misses, byte soups, import graphs.",
-        note=TB + "termination of parser and emitters is shown for the models (structural recursion / fuel) and sampled for the code.",
-        technique="Lean 4 totality theorems for the lexer model + regenerated error-literal facts + crash/hang search",
+        note=TB + "sufficiency of the parser model's fuel (no `diverge` outcome) is NOT proved: hangs of the real parser are searched with a watchdog; the model's outcome class is compared with the parser's on every input.",
+        technique="Lean 4 totality theorems for the lexer model, no-crash theorem for the parser model + regenerated error-literal facts + crash/hang search",
         design="7/C13"),
     "C14": dict(
         text="Theorems (Props/C14.lean): the regenerated facts (map ranges, maps.* calls, package-level variables, environment calls, fields of the state-holding structs) equal the "
